@@ -164,3 +164,27 @@ def ip_increments(body):
     if any(i is None for i in incs):
         incs = [i if i is not None else 10**6 for i in incs]
     return incs, has_continue, tail_continue
+
+
+def operator_dispatchers(F, R):
+    """The two VM helpers the arithmetic/relational and the bitwise opcode arms hand their operator closure to, found by
+    role (not by name): → {"binary": path, "optype": name of the operator-class parameter, "bitwise": path}"""
+    arms = vm_arms(F, R)
+    out = {"binary": None, "optype": None, "bitwise": None}
+    if not arms:
+        return out
+    for role, op in (("binary", "Add"), ("bitwise", "And")):
+        a = arms.get(op)
+        if a is None:
+            continue
+        for c in H.walk(a["body"]):
+            if c.get("k") in ("call", "mcall") and c.get("callee") in F.fns and any(x.get("k") == "closure" for x in c.get("args", [])):
+                out[role] = c["callee"]
+                break
+    g = F.fn(out["binary"]) if out["binary"] else None
+    if g is not None and g.get("mir"):
+        locs = g["mir"]["locals"]
+        for i in range(1, g["mir"]["arg_count"] + 1):
+            if "BinaryOperation" in (locs[i].get("ty") or ""):
+                out["optype"] = locs[i].get("name")
+    return out
